@@ -190,6 +190,17 @@ pub fn diff_model_ext(mem: &mut Memvid, model: &Model, ro: bool, at: &str, allow
                 }
             }
         }
+    // C27: caller-made memory cards (the model's list is what a commit has persisted plus, on a
+    // live handle, what was added since)
+    {
+        let got: Vec<String> = mem.memories().cards().iter().filter(|c| c.engine == crate::cards::SIM_ENGINE).map(crate::cards::card_line).collect();
+        let exp: Vec<String> = model.cards.iter().map(|(id, s)| crate::cards::spec_line(*id, s)).collect();
+        let ok = if allow_extra { got.len() >= exp.len() && got[..exp.len()] == exp[..] } else { got == exp };
+        if !ok {
+            let d = got.iter().zip(exp.iter()).position(|(a, b)| a != b).unwrap_or(got.len().min(exp.len()));
+            out.push((vec!["C27", "C01"], "card-set-unchanged", format!("[{at}] {} caller-made memory cards in the file, {} in the model; first difference at {d}: {:?} vs {:?}", got.len(), exp.len(), got.get(d), exp.get(d))));
+        }
+    }
     // C08: frame_by_uri returns the newest active version carrying the uri
     if !allow_extra {
         let mut newest: std::collections::BTreeMap<String, u64> = Default::default();
